@@ -135,6 +135,7 @@ def run(rep, tier):
                         cond_, {k: hex(v) for k, v in cx[0].items()}, cx[1], cx[2], exp_fetch, ft))
     rule_r2(rep, idx)
     rule_r4(rep, idx)
+    rule_streams_flushed(rep, {"hexsim.cpp": idx, "xrun.cpp": cast.load("xrun.cpp")})
 
 
 # --------------------------------------------------------------------------------------------------
@@ -153,6 +154,67 @@ def ctor_inits(idx, cls):
                 d[any_.get('name')] = ini
         out.append((c, d))
     return out
+
+
+def _owns_stream(idx, qn, seen=None):
+    """Does an object of class qn contain (transitively, by value) a std file stream?"""
+    import re
+    seen = seen if seen is not None else set()
+    if qn in seen or qn not in idx.records:
+        return False
+    seen.add(qn)
+    for c in [qn] + idx.bases_of(qn):
+        rec = idx.records.get(c)
+        for fd in (rec.fields if rec else []):
+            from ..cast import qt as _qt, dqt as _dqt
+            t = _dqt(fd) + ' ' + _qt(fd)
+            if '&' in _qt(fd) or '*' in _qt(fd):
+                continue
+            if re.search(r'\b(basic_)?o?fstream\b|basic_ofstream|basic_fstream', t):
+                return True
+            for tn in re.findall(r'[A-Za-z_][\w:]*', t):
+                q = tn if tn in idx.records else idx._resolve_record_name(tn.split('::')[-1], c)
+                if q and q != c and _owns_stream(idx, q, seen):
+                    return True
+    return False
+
+
+def rule_streams_flushed(rep, idxs):
+    rep.rule('R5', 'what the program writes to simout<n> reaches the file: the simulator object, which owns the lazily opened file streams, is '
+             'destroyed before the process ends -- a Processor created with new and never deleted (or leaked through release()) leaves the '
+             'last buffer of every simout file unwritten, while stdout and the exit status look right', floor=2)
+    from ..cast import qt as _qt, dqt as _dqt
+    import re
+    for tu, ix in idxs.items():
+        m = [f for f in ix.all_funcs() if f.name == 'main' and f.body is not None and not f.cls]
+        if len(m) != 1:
+            continue
+        m = m[0]
+        n = 0
+        for d in walk(m.body):
+            if d.get('kind') == 'VarDecl':
+                t = re.sub(r'^(const )?(class |struct )?', '', _qt(d)).strip()
+                if t in ix.records and _owns_stream(ix, t):
+                    n += 1
+                    rep.add('R5', '%s:main:%s' % (tu, d.get('name')), True, pos(d) + ' main(%s)' % tu,
+                            'automatic object of %s: destroyed (files flushed and closed) when main returns' % t, nontrivial=False)
+            if d.get('kind') == 'CXXNewExpr':
+                t = re.sub(r'^(const )?(class |struct )?', '', _qt(d)).replace('*', '').strip()
+                if t in ix.records and _owns_stream(ix, t):
+                    n += 1
+                    deleted = any(x.get('kind') == 'CXXDeleteExpr' for x in walk(m.body))
+                    # owned by a smart pointer?
+                    owned = False
+                    for v in walk(m.body):
+                        if v.get('kind') in ('VarDecl', 'CXXConstructExpr') and ('unique_ptr' in (_qt(v) + _dqt(v)) or 'shared_ptr' in (_qt(v) + _dqt(v))) \
+                                and any(x is d for x in walk(v)):
+                            owned = True
+                    rep.add('R5', '%s:main:new %s@%s' % (tu, t.split('::')[-1], pos(d).split(':')[-1]), deleted or owned, pos(d) + ' main(%s)' % tu,
+                            'released by delete / owned by a smart pointer' if deleted or owned else
+                            'a %s is created with new and never destroyed: its std::fstream members are not flushed at exit, so bytes the '
+                            'program wrote to simout<n> are missing from the files' % t)
+        if n == 0:
+            rep.undecided('R5', '%s:main' % tu, 'no object that owns the simulator I/O streams found in main', pos(m.node) + ' main(%s)' % tu)
 
 
 def rule_r2(rep, idx):
